@@ -462,9 +462,15 @@ func rulePlayLoop(c *Ctx) {
 	if wp := c.fn("cmd", "writeCmdArgs.writeToPlay"); wp != nil {
 		c.site(1)
 		good := false
-		for _, cf := range wp.AnonFuncs {
-			for _, ci := range callsTo(cf, "play.NewKey") {
-				if len(cf.Params) == 1 && ci.Common().Args[0] == ssa.Value(cf.Params[0]) {
+		// the factory handed to play.NewWriter: a closure or a method value; it must build the play key from the key it is given
+		for _, nw := range callsTo(wp, "play.NewWriter") {
+			args := nw.Common().Args
+			kf := unbound(funcOfValue(args[len(args)-1]))
+			if kf == nil {
+				continue
+			}
+			for _, ci := range callsTo(kf, "play.NewKey") {
+				if p, ok := ci.Common().Args[0].(*ssa.Parameter); ok && p.Parent() == kf && typeName(p.Type()) == "op.Key" {
 					good = true
 				}
 			}
